@@ -131,6 +131,12 @@ def mutations(r, d, others, wrong_key, quick, special_pubs=()):
     cuts = sorted(set(edge + [r.randrange(n) for _ in range(20 if quick else 70)]))
     for k in cuts:
         out.append(("truncate", d[:k]))
+    if n >= 64:   # extensions that end with a copy of the datagram's own signature (or repeat it): the original signature is
+        # then no longer the last 64 bytes of what must be covered, so nothing authenticates the inserted bytes
+        sig = d[-64:]
+        out.append(("extend-own-signature", d + sig))
+        out.append(("extend-bytes-then-own-signature", d + r.randbytes(24) + sig))
+        out.append(("insert-before-signature-copy", d[:-64] + sig + r.randbytes(8) + sig))
     for extra in (b"\x00", b"\xff" * 3, r.randbytes(64)):
         out.append(("extend", d + extra))
         out.append(("insert", d[:30] + extra + d[30:]))
